@@ -265,7 +265,21 @@ class Terms:
             elif k == "index":
                 t = ("index", t, self.local(e["l"]))
             elif k == "cindex":
-                t = ("cindex", t, e["off"], e["end"])
+                done = False
+                if t[0] == "call" and short(t[1]) == "<impl [T; N]>::map" and len(t[2]) == 2 and not e["end"] and self.prog is not None:
+                    # `let [a, b] = [x, y].map(f)`: component k is f(k-th element)
+                    arr, cl = t[2][0], t[2][1]
+                    while arr[0] in ("ref", "deref"):
+                        arr = arr[1]
+                    while cl[0] in ("ref", "deref"):
+                        cl = cl[1]
+                    if arr[0] == "aggr" and arr[1] == "array" and e["off"] < len(arr[2]) and cl[0] == "aggr" and cl[1].startswith("closure:"):
+                        ap = apply_closure(self.prog, cl, (arr[2][e["off"]],))
+                        if ap is not None:
+                            t = ap
+                            done = True
+                if not done:
+                    t = ("cindex", t, e["off"], e["end"])
             elif k == "downcast":
                 t = ("downcast", t, e["name"])
             elif k == "subslice":
